@@ -359,3 +359,146 @@ Theorem service_names_differ_outside :
   /\ guards_of (svc_req [("service.name", AStr "")] [("peer.service", AStr "db")]) = [false]
   /\ guards_of (svc_req [("service", AMap [("name", AStr "inner")])] [("service.name", AStr "outer")]) = [false].
 Proof. vm_compute. repeat split; reflexivity. Qed.
+
+(* ================================================================== any key: what the trace view shows is what the index holds *)
+(* the text under which a scalar attribute value is indexed *)
+Definition scalar_str (v : aval) : option string :=
+  match v with
+  | AStr s => Some s | ABool b => Some (if b then "true" else "false") | ADouble d => Some (print_f6 d) | AInt z => Some (print_Z z)
+  | _ => None
+  end.
+Definition key_step (K : string) (cur : option string) (kv : string * aval) : option string :=
+  if String.eqb (fst kv) K then svc_str (snd kv) cur else cur.
+(* no OTHER first-level attribute whose dotted flattening (k.0, k.sub ...) can reach the key K *)
+Definition unreached (K : string) (keys : list string) : Prop :=
+  forall k, In k keys -> k <> K -> has_prefix (k ++ ".") K = false.
+
+Lemma flat_val_key K k v m m' :
+  (k <> K -> has_prefix (k ++ ".") K = false) -> flat_val true k v m = Some m' -> lookup K m' = key_step K (lookup K m) (k, v).
+Proof.
+  intros Hk H. unfold key_step. cbn [fst snd]. destruct (String.eqb_spec k K) as [->|Hne].
+  - destruct (composite v) eqn:Ec.
+    + rewrite (flat_val_composite v true K m m' K Ec); [destruct v; try discriminate; reflexivity| |exact H].
+      intros y. apply has_prefix_self_ext.
+    + destruct v; try discriminate; cbn [flat_val] in H; try discriminate; inversion H; subst; cbn [svc_str];
+        try reflexivity; apply lookup_upsert_same.
+  - apply (flat_val_unrelated v true k m m' K Hne (Hk Hne) H).
+Qed.
+
+Lemma flat_attrs_key K a : forall m m',
+  unreached K (map fst a) -> flat_attrs true a m = Some m' -> lookup K m' = fold_left (key_step K) a (lookup K m).
+Proof.
+  induction a as [|[k v] a IH]; intros m m' Hno H; cbn [flat_attrs fst snd fold_left map] in *.
+  - inversion H; subst; reflexivity.
+  - destruct (flat_val true k v m) as [m1|] eqn:E; [|discriminate].
+    rewrite (IH m1 m' (fun k' Hin => Hno k' (or_intror Hin)) H).
+    rewrite (flat_val_key K k v m m1 (Hno k (or_introl eq_refl)) E). reflexivity.
+Qed.
+
+Lemma fold_key_last K a : forall cur v s, lookup K (rev a) = Some v -> scalar_str v = Some s -> fold_left (key_step K) a cur = Some s.
+Proof.
+  induction a as [|[k v0] a IH] using rev_ind; intros cur v s H Hs; [discriminate|].
+  rewrite fold_left_app. cbn [fold_left]. rewrite rev_app_distr in H. cbn [rev app lookup] in H.
+  unfold key_step at 1. cbn [fst snd]. rewrite (String.eqb_sym k K).
+  destruct (String.eqb K k).
+  - inversion H; subst. destruct v; try discriminate Hs; cbn [svc_str scalar_str] in *; exact Hs.
+  - apply (IH _ _ _ H Hs).
+Qed.
+
+Lemma keys_of_list_incl (a : attrs) k : In k (map fst a) -> In k (map fst (of_list a)).
+Proof. intros H. apply lookup_in_keys. apply of_list_has_key. apply lookup_in_keys, H. Qed.
+
+Lemma otlp_span_indexed ra s sr p K v str :
+  otlp_span fixed ra s = Some sr -> otlp_pushed ra s = Some p ->
+  K <> k_name -> lookup K (p_attrs p) = Some v -> scalar_str v = Some str -> unreached K (map fst (p_attrs p)) ->
+  In (K, str) (map kv_of (snd sr)).
+Proof.
+  intros Hs Hp Hn Hl Hv Hu.
+  destruct (otlp_span_pushed _ _ _ _ Hs Hp) as [[_ Htags] [_ [_ [Hattrs _]]]].
+  rewrite Hattrs in Hl, Hu. set (a := populate (o_attrs s ++ ra)%list) in *.
+  assert (Htag : lookup K (p_tags p) = Some str).
+  { unfold otlp_pushed in Hp. fold a in Hp. destruct (flat_attrs true a []) as [m|] eqn:Ef; [|discriminate].
+    inversion Hp; subst p; cbn [p_tags].
+    rewrite lookup_upsert_other by exact Hn.
+    rewrite (flat_attrs_key K a [] m (fun k Hin => Hu k (keys_of_list_incl a k Hin)) Ef).
+    rewrite of_list_lookup in Hl. apply (fold_key_last K a _ v str Hl Hv). }
+  destruct Htags as [_ Hperm]. apply (Permutation.Permutation_in _ (Permutation.Permutation_sym Hperm)).
+  apply lookup_some_in, Htag.
+Qed.
+
+Theorem otlp_shown_attribute_is_indexed_l : forall b rows ps,
+  decode fixed (InOtlp b) = Some rows -> pushed_of (InOtlp b) = Some ps ->
+  Forall2 (fun p sr => forall K v str, K <> k_name -> lookup K (p_attrs p) = Some v -> scalar_str v = Some str ->
+                                       unreached K (map fst (p_attrs p)) -> In (K, str) (map kv_of (snd sr))) ps rows.
+Proof.
+  cbn [decode pushed_of]. intros b rows ps Hd0. apply otlp_decode_some in Hd0. destruct Hd0 as [Hd0 _]. revert Hd0.
+  rewrite (otlp_decode_flat b). generalize (batch_spans b). intros l.
+  revert rows ps. induction l as [|[ra s] l IH]; intros rows ps Hd Hp; cbn [mapM fst snd] in Hd, Hp.
+  - inversion Hd; inversion Hp. constructor.
+  - destruct (otlp_span fixed ra s) as [sr|] eqn:Es; [|discriminate].
+    destruct (mapM (fun x => otlp_span fixed (fst x) (snd x)) l) as [rs|]; [|discriminate].
+    destruct (otlp_pushed ra s) as [p|] eqn:Ep; [|discriminate].
+    destruct (mapM (fun x => otlp_pushed (fst x) (snd x)) l) as [ps'|]; [|discriminate].
+    inversion Hd; inversion Hp; subst. constructor.
+    + intros K v str Hn Hl Hv Hu. apply (otlp_span_indexed ra s sr p K v str Es Ep Hn Hl Hv Hu).
+    + apply IH; reflexivity.
+Qed.
+
+(* the hypotheses are met (the input of seeded change C06-h: the key on both levels; the index and the trace view hold the RESOURCE's value) ... *)
+Definition tags_of_req (inp : input) : list (list (string * string)) :=
+  match decode fixed inp with Some rows => map (fun sr => map kv_of (snd sr)) rows | None => [] end.
+Definition shown_of_req (inp : input) (K : string) : list (option aval) :=
+  match pushed_of inp with Some ps => map (fun p => lookup K (p_attrs p)) ps | None => [] end.
+Example ex_key_on_both_levels :
+  let inp := svc_req [("deployment.environment", AStr "prod"); ("service.name", AStr "checkout")]
+                     [("deployment.environment", AStr "staging"); ("retries", AInt 3)] in
+  shown_of_req inp "deployment.environment" = [Some (AStr "prod")]
+  /\ map (lookup "deployment.environment") (tags_of_req inp) = [Some "prod"]
+  /\ map (lookup "retries") (tags_of_req inp) = [Some "3"]
+  /\ unreached "deployment.environment" ["deployment.environment"; "retries"; "service.name"; "remoteService.name"].
+Proof.
+  cbn zeta. split; [vm_compute; reflexivity|]. split; [vm_compute; reflexivity|]. split; [vm_compute; reflexivity|].
+  intros k Hin Hne. cbn [In] in Hin. destruct Hin as [<-|[<-|[<-|[<-|[]]]]]; reflexivity.
+Qed.
+(* ... and [unreached] is needed: a list attribute a = [y] after the scalar attribute a.0 = x overwrites the index entry, the trace view shows a.0 = x;
+   likewise the attribute called "name" is indexed under the span's name *)
+Theorem shown_attribute_not_indexed_outside :
+  let inp := svc_req [("service.name", AStr "s")] [("a.0", AStr "x"); ("a", AList [AStr "y"])] in
+  let inp2 := svc_req [("service.name", AStr "s")] [("name", AStr "attr")] in
+  shown_of_req inp "a.0" = [Some (AStr "x")] /\ map (lookup "a.0") (tags_of_req inp) = [Some "y"]
+  /\ has_prefix ("a" ++ ".") "a.0" = true
+  /\ shown_of_req inp2 "name" = [Some (AStr "attr")] /\ map (lookup "name") (tags_of_req inp2) = [Some "GET /x"].
+Proof. vm_compute. repeat split; reflexivity. Qed.
+
+(* the same with the read path: every scalar first-level attribute of the span OutputQuery returns is in the tag index under its printed value *)
+Lemma otlp_read_indexed_one ra s sr p :
+  otlp_span fixed ra s = Some sr -> otlp_pushed ra s = Some p -> 0 <= o_start s < two64 -> 0 <= o_end s < two64 ->
+  exists r, read_row fixed [] (fst sr) = Some r /\
+    forall K v str, K <> k_name -> lookup K (rs_attrs r) = Some v -> scalar_str v = Some str ->
+                    unreached K (map fst (rs_attrs r)) -> In (K, str) (map kv_of (snd sr)).
+Proof.
+  intros Hs Hp Hst Hen.
+  destruct (otlp_read_one ra s sr p Hs Hp Hst Hen) as (r & Hread & _ & _ & _ & _ & _ & _ & _ & Hun & _).
+  destruct (otlp_span_pushed _ _ _ _ Hs Hp) as [_ [_ [_ [_ [Hord _]]]]].
+  exists r. split; [exact Hread|]. rewrite (Hun Hord). intros K v str Hn Hl Hv Hu.
+  apply (otlp_span_indexed ra s sr p K v str Hs Hp Hn Hl Hv Hu).
+Qed.
+
+Theorem read_attribute_is_indexed_l : forall b rows ps,
+  decode fixed (InOtlp b) = Some rows -> pushed_of (InOtlp b) = Some ps -> in_range (InOtlp b) ->
+  Forall2 (fun (p : pushed) sr => exists r, read_row fixed [] (fst sr) = Some r /\
+             forall K v str, K <> k_name -> lookup K (rs_attrs r) = Some v -> scalar_str v = Some str ->
+                             unreached K (map fst (rs_attrs r)) -> In (K, str) (map kv_of (snd sr))) ps rows.
+Proof.
+  cbn [decode pushed_of in_range]. intros b rows ps Hd0. apply otlp_decode_some in Hd0. destruct Hd0 as [Hd0 _]. revert Hd0.
+  rewrite (otlp_decode_flat b). unfold otlp_times_ok. generalize (batch_spans b). intros l.
+  revert rows ps. induction l as [|[ra s] l IH]; intros rows ps Hd Hp Ht; cbn [mapM fst snd] in Hd, Hp.
+  - inversion Hd; inversion Hp. constructor.
+  - destruct (otlp_span fixed ra s) as [sr|] eqn:Es; [|discriminate].
+    destruct (mapM (fun x => otlp_span fixed (fst x) (snd x)) l) as [rs|]; [|discriminate].
+    destruct (otlp_pushed ra s) as [p|] eqn:Ep; [|discriminate].
+    destruct (mapM (fun x => otlp_pushed (fst x) (snd x)) l) as [ps'|]; [|discriminate].
+    inversion Hd; inversion Hp; subst. constructor.
+    + destruct (Ht (ra, s) (or_introl eq_refl)) as [H1 H2]. apply (otlp_read_indexed_one ra s sr p Es Ep H1 H2).
+    + apply IH; try reflexivity. intros x Hx. apply Ht. now right.
+Qed.
